@@ -1,0 +1,74 @@
+//go:build verif
+
+// Contracts for govc (/verif): C28 consensus operations form a serialized single-transaction chain.
+// Comment-only file. This part: the durable chain write (storage/badger_graph.go: writeConsensusSnapshot).
+// Uses the abstract badger model T-KV of /verif/govc/trusted/badger.spec and the storage key space of zz_contracts_c03_verif.go.
+
+package storage
+
+// ───────────── CONSENSUSSNAPSHOT key space ─────────────
+// graphConsensusSnapshotKey(ts, h) = "CONSENSUSSNAPSHOT" || big-endian ts (8 bytes) || h (32 bytes). ASSUMED (as for the other key
+// constructors): a deterministic, injective function of (ts, h) whose prefix differs from every other key prefix; the parse functions
+// keykind / keynum / keyhid invert it (kind 7).
+//@ uninterp ConsKeyId(ts mathint, h mathint) mathint
+//@ axiom forall t, h mathint :: {ConsKeyId(t, h)} keykind(ConsKeyId(t, h)) == 7 && keyhid(ConsKeyId(t, h)) == h && (0 <= t && t < 18446744073709551616 ==> keynum(ConsKeyId(t, h)) == t)
+//@ assume func graphConsensusSnapshotKey
+//@   modifies nothing
+//@   ensures fresh(result) && kvkey(result) == ConsKeyId(ts, kvval(snap))
+// ConsKey(k, ts): k is (the id of) a CONSENSUSSNAPSHOT key with timestamp ts
+//@ spec ConsKey(k mathint, ts mathint) bool = keykind(k) == 7 && keynum(k) == ts
+
+// ───────────── the head of the recorded chain ─────────────
+// ChainHead(t): the snapshot of the newest CONSENSUSSNAPSHOT record the transaction sees (nil: no record). readLastConsensusSnapshot
+// finds it with a reverse iterator over the prefix; the iterator API is not part of the T-KV model, so this is ASSUMED: the function
+// is a read-only query whose answer is a function of the transaction's view, and it reports either an error or that answer.
+// Explicit panics in it (a record whose key timestamp differs from the snapshot's, a head record with a non-empty value) are
+// storage-corruption assertions.
+//@ uninterp ChainHead(t badger.Txn) *common.Snapshot
+//@ assume func readLastConsensusSnapshot
+//@   requires txn != nil
+//@   modifies nothing
+//@   ensures err != nil ==> result0 == nil
+//@   ensures err == nil ==> result0 == ChainHead(*txn)
+
+// ───────────── writeConsensusSnapshot ─────────────
+// GenesisTx: the transaction spends a genesis input (only the genesis loader writes such a record: the chain starts there).
+//@ spec GenesisTx(tx *common.VersionedTransaction) bool = len(tx.Inputs) == 1 && !isnil(tx.Inputs[0].Genesis)
+// LastOf: the predecessor the write is checked against: the head the transaction sees, or (mainnet before the fork, no record yet)
+// the head computed by the kernel and passed as `hack`.
+//@ spec LastOf(t badger.Txn, hack *common.Snapshot) *common.Snapshot = hack != nil ? hack : ChainHead(t)
+// Extends: the chain rule of the property: the operation references the previous recorded operation and is strictly later.
+//@ spec Extends(last *common.Snapshot, snap *common.Snapshot, tx *common.VersionedTransaction) bool =
+//@     len(tx.References) >= 1 && tx.References[0] == last.Transactions[0] && snap.Timestamp > last.Timestamp
+// ConsensusShape: what the function accepts as a consensus operation: a single mint input, or a first output of a membership / custodian type.
+//@ spec ConsensusShape(tx *common.VersionedTransaction) bool = (len(tx.Inputs) == 1 && tx.Inputs[0].Mint != nil) ||
+//@     tx.Outputs[0].Type == common.OutputTypeNodePledge || tx.Outputs[0].Type == common.OutputTypeNodeCancel ||
+//@     tx.Outputs[0].Type == common.OutputTypeNodeAccept || tx.Outputs[0].Type == common.OutputTypeNodeRemove ||
+//@     tx.Outputs[0].Type == common.OutputTypeCustodianUpdateNodes || tx.Outputs[0].Type == common.OutputTypeCustodianSlashNodes
+
+// The explicit panics of this function are consistency assertions of the durable write (a snapshot that does not carry exactly this
+// transaction, a non-consensus transaction, a predecessor mismatch, a non-increasing timestamp): the kernel validated all of them
+// before (validateKernelSnapshot, ChainRule), so they are fatal by design -> `maypanic`. What C28 needs is the other direction:
+// a NORMAL return wrote the head only as an extension of the chain ([chain]) or wrote nothing ([noop]).
+//@ func writeConsensusSnapshot
+//@   property C28
+//@   trustpre PayloadHash -- payload well-formedness of tx / encoding version of the snapshots belong to C06/C07
+//@   requires txn != nil && iscell(txn) && snap != nil && tx != nil && common.TxElemsOK(&tx.SignedTransaction)
+//@   requires [outputs] len(tx.Outputs) >= 1 -- every validated transaction has an output (common: validateOutputs)
+//@   requires [references] !GenesisTx(tx) ==> len(tx.References) >= 1 -- kernel: validateConsensusTransactionReferences / WriteConsensusSnapshotWithHack test it
+//@   requires [head-available] hack == nil && !GenesisTx(tx) ==> ChainHead(*txn) != nil
+//@       -- callers: the kernel passes hack == nil only after ReadLastConsensusSnapshot returned a record (records are never deleted);
+//@       -- the genesis loader (badger_genesis.go) writes a genesis transaction
+//@   maypanic
+//@   modifies *txn, tx.hash, tx.pmbytes
+//@   ensures [sole] err == nil ==> len(snap.Transactions) == 1 && snap.Transactions[0] == common.TxHash(tx)
+//@   ensures [class] err == nil ==> ConsensusShape(tx)
+//@   ensures [chain] err == nil && !GenesisTx(tx) ==> len(LastOf(old(*txn), hack).Transactions) == 1 &&
+//@       (LastOf(old(*txn), hack).Transactions[0] == common.TxHash(tx) || Extends(LastOf(old(*txn), hack), snap, tx))
+//@   ensures [noop] err == nil && !GenesisTx(tx) && LastOf(old(*txn), hack).Transactions[0] == common.TxHash(tx) ==> *txn == old(*txn)
+//@   ensures [writes] forall k mathint :: {badger.kvget(*txn, k)} badger.kvget(*txn, k) != old(badger.kvget(*txn, k)) ==>
+//@       ConsKey(k, snap.Timestamp) || (!GenesisTx(tx) && ConsKey(k, LastOf(old(*txn), hack).Timestamp))
+//@   ensures [head] err == nil && (GenesisTx(tx) || LastOf(old(*txn), hack).Transactions[0] != common.TxHash(tx)) ==>
+//@       exists k mathint :: ConsKey(k, snap.Timestamp) && badger.kvget(*txn, k) != 0
+//@   ensures [link] err == nil && !GenesisTx(tx) && LastOf(old(*txn), hack).Transactions[0] != common.TxHash(tx) ==>
+//@       exists k mathint :: ConsKey(k, LastOf(old(*txn), hack).Timestamp) && badger.kvget(*txn, k) == kvval(common.TxHash(tx))
